@@ -127,6 +127,7 @@ def handle : Sexp → Option Sexp
       | some toks, some (some s) => pure (answerTokens G toks (some s) ts hdr nonce)
       | _, _ => pure (.list ([.atom "fail", .str "parse"] ++ hdr ++ [nonce]))
   | .list [.atom "c05.tokens", g, .list syms, .list toks, sk, .list progs, nonce] => do
+      -- specification only (no automaton): sharpenSpec on the given tokens, the hypotheses, L(G)
       let G ← decCFG g
       let syms ← allSome decSym syms
       let toks ← allSome (decTok syms) toks
@@ -135,7 +136,10 @@ def handle : Sexp → Option Sexp
         | .list [.atom "none"] => some none
         | .list [.atom "some", s] => do pure (some (← decTok syms s))
         | _ => none
-      pure (answerTokens G toks skT ts [.list (toks.map tokSexp), optTokSexp skT] nonce)
+      let inG := fun t => gen G t G.start
+      pure (.list [.atom "ok", .list [ofBool (wfCFG G), ofBool (sigFunctional G), ofBool (cfg2dftaExact G)],
+        bits (ts.map (sharpenSpec inG toks skT)), bits (ts.map inG),
+        ofBool ((toks ++ skT.toList).all (noRepeatedHead [])), nonce])
   | .list [.atom "c05.parse", .list prims, .list vars, s, nonce] => do
       let Sy : Syms := { prims := ← allSome decSym prims, vars := ← allSome decSym vars }
       let s ← s.string?
